@@ -101,6 +101,16 @@ add("C09",
     "pbt/ref/ovf_ref.py (written from the OVF specification) is trusted; units/labels without whitespace; text "
     "truncation is not asserted (the property names binary files).", category="fault_enumeration")
 
+add("C10",
+    "Hypothesis-generated fields over every metadata and corner-typing combination; attribute-by-attribute comparison "
+    "after from_file, an h5py view of the file, and legacy-layout files from an independent writer",
+    "Generated-input search over 1-4-d meshes x names x units x tolerance factor x bc x 0-3 subregions x int/float/"
+    "fractional corner typing x nvdim x labels (custom/default/absent) x unit/None x float/complex/int x masks; every "
+    "attribute the property lists is compared individually (array_equal for corners and values), subregions incl. "
+    "their inherited names/units/tolerance; legacy files must load to the writer's content.",
+    "int data may come back as float64 (equal values); mapping is not stored; legacy layout reproduced from the "
+    "pre-0.90 writer.")
+
 PENDING = {}
 
 
